@@ -7,6 +7,7 @@ import struct
 from .. import common
 from ..common import log
 from . import c09_floats
+from . import c09_ext
 
 SLOT = 0x400
 NSLOT = 60
@@ -645,7 +646,7 @@ def hand_cases():
 
 def run(args):
     res = common.Result("C09", args.tier, args.seed, "proof")
-    bdir, audit, proof_problems = common.standard_setup(res, "C09", ["FileFormat", "IntTypes"])
+    bdir, audit, proof_problems = common.standard_setup(res, "C09", ["FileFormat", "IntTypes", "ListParams"])
     if bdir is None:
         return res.finish()
     ok = not any(p.startswith("driver does not build") for p in proof_problems)
@@ -737,22 +738,41 @@ def run(args):
         stats.update(fl["stats"])
         samples += fl["samples"]
         known_hits.update(fl["known_hits"])
+        # packed / word-granular segments, DN, CHARSET maps, character constants: vlib/props/c09_ext.py
+        xprobes = {}
+        for part in (c09_ext.run_part(_sys.modules[__name__], args, bdir, wd, ok, probes),):
+            xprobes.update(part.get("probes", {}))
+            spec_fail += part["spec_fail"]
+            corr_fail += part["corr_fail"]
+            proof_problems += part["problems"]
+            evaluations += part["evaluations"]
+            distinct |= part["distinct"]
+            dist.update(part["dist"])
+            stats.update(part["stats"])
+            samples += part["samples"]
+            known_hits.update(part["known_hits"])
     # a spec failure of a known class must still agree with the (bug-compatible) model; otherwise it is new
     res.coverage = common.proof_coverage(audit, "C09", [
         "translate/tables.py gen_inttypes (IntTypeDefs[] after asmpars_init via a dumper linked with the assembler's objects; enum names via clang AST)",
         "correspondence: real asl vs Model/Data.lean on generated statements (differential test)",
         "correspondence: real asl vs Model/Floats.lean on single float constants per target format (half, x87/68881 extended, IBM hex short/long, TMS320C3x short/single/extended)",
+        "correspondence: real asl vs Model/DataExt.lean on generated statements under CHARSET/CODEPAGE maps, with character constants, DN, and on the word-granular "
+        "CODE segments of AVR/KCPSM/KCPSM3 (granularity and TurnWords looked up in Generated/ListParams.lean, dumped from the current build by gen_listparams)",
         "C cast double->float assumed IEEE round-to-nearest-even (checked against the spec on every DC.S/DD case)",
         "decimal->double conversion of the assembler (float literals are printed with 17 significant digits)"])
     res.coverage.update(
         evaluations=evaluations, distinct_nontrivial=len(distinct),
         rule="one evaluation = one ORG-separated slot of 1-3 data statements + sentinel byte on one of 7 target configurations, compared cell by cell "
              "(address, byte) with the Lean model and with the Lean specification; non-trivial = lays at least two cells or is rejected; distinct by request line; "
-             "plus (float part) one evaluation = one float constant in one target format, emitted bits vs Model/Floats.lean and decoded value vs the format's nearest-even rounding, distinct by (format, double)",
+             "plus (float part) one evaluation = one float constant in one target format, emitted bits vs Model/Floats.lean and decoded value vs the format's nearest-even rounding, distinct by (format, double); "
+             "plus (extension part, c09_ext.py) one evaluation = one slot of CHARSET statements + 1-2 data statements + sentinel on one of 11 target/segment configurations "
+             "(byte, 16-bit and 32-bit address units), compared cell by cell (byte offset, byte) with Model/DataExt.lean and Spec/DataExt.lean, same non-triviality rule",
         samples=samples, distribution=dict(sorted(dist.items())), generator=dict(sorted(stats.items())),
-        probes=probes, spec_failures_by_signature={str(k): v for k, v in known_hits.items()})
+        probes=dict(probes, **xprobes), spec_failures_by_signature={str(k): v for k, v in known_hits.items()})
     res.assumptions = ["expression evaluation (C08) is outside: arguments are literals; integer values are wrapped to 64 bit before the model sees them",
-                       "identity character map; double-quoted strings only",
+                       "base stream: identity character map, double-quoted strings only; extension stream: CHARSET maps given by valid CHARSET statements with numeric arguments "
+                       "(the CHARSET statement's own error paths and the table-from-file form are outside), strings and character constants over a printable alphabet",
+                       "statements stay below the 1 KiB per line limit (SetMaxCodeLen is not modelled); DT reservation on 32-bit units is not generated (80 bits are not a whole number of units)",
                        "values in the gaps between the assembler's float limits (65504, 3.4e38, 1.7e308) and the formats' true limits are not generated",
                        "NaN inputs: only the quiet NaN that `1e400-1e400` evaluates to (no other NaN can be written in source text)",
                        "EFLOAT/BFLOAT/TFLOAT/Qxx/LQxx (frexp/ldexp/modf of libm), DC.P packed decimal (printf %.16e) and the uPD77230 format are not modelled"]
